@@ -456,3 +456,104 @@ def control_signals_not_exceptions(chk, prefix):
         c = P.cls("exceptions." + name)
         chk.prove(f"{prefix}.exceptions.control_signals_bypass_except_exception", [], bool(c.is_subclass_of("ext:BaseException") and not c.is_subclass_of("ext:Exception")),
                   desc="SDK control signals are BaseExceptions that are not Exceptions, so handlers written with `except Exception` let them through to the wrapper")
+
+
+def client_forwards(chk, prefix="C05"):
+    """LambdaClient.checkpoint / get_execution_state hand the caller's arguments to the API unchanged: one wire update per update, in order
+    (the last hop of 'nothing lost, duplicated or reordered'), the caller's token, ARN and marker; the parsed response is returned"""
+    WIRE = z3.Function("wire_form_of_update", z3.IntSort(), ops.ANY)
+
+    class H(ClientHooks):
+        def opaque_call(self, eng_, s, fn, args, kwargs):
+            if fn.name.startswith("boto."):
+                s.emit("api", name=fn.name, args=tuple(args), kwargs=dict(kwargs))
+            return ClientHooks.opaque_call(self, eng_, s, fn, args, kwargs)
+
+        def glist_comp(self, eng_, s, e, gen, it, kind):
+            if kind == "dict" and not gen.ifs:
+                # {K(x): V(x) for x in xs}: equal keys collapse - the size is anywhere between min(1, n) and n
+                stor = s.get(it)
+                for s1 in eng_.bind_target(gen.target, stor["elem"], s.fork()):
+                    kv = eng_.ev_seq([e.key, e.value], s1)
+                    if len(kv) != 1 or kv[0][0] != "val":
+                        raise Unsupported("dict comprehension element forks")
+                    L = fresh("int", "distinct_keys")
+                    s.assume(z3.And(L.t >= 0, L.t <= stor["len"], z3.Implies(stor["len"] > 0, L.t >= 1)))
+                    return [("val", s.alloc("dict", {"__kind__": "keyed_collapse", "len": L.t, "val": kv[0][1][1]}), s)]
+            return ClientHooks.glist_comp(self, eng_, s, e, gen, it, kind)
+
+        def ext_call(self, eng_, s, name, args, kwargs):
+            if name == "list" and args and isinstance(args[0], Ref) and s.get(args[0]).get("__kind__") == "collapsed_values":
+                src = s.get(args[0])
+                return [("val", s.alloc("list", {"__kind__": "glist", "len": src["len"], "elem": src["val"]}), s)]
+            return ClientHooks.ext_call(self, eng_, s, name, args, kwargs)
+
+    class Collapsed:
+        def method(self, eng_, s, ref, name, args, kwargs):
+            stor = s.get(ref)
+            if name == "values":
+                return [("val", s.alloc("list", {"__kind__": "collapsed_values", "len": stor["len"], "val": stor["val"]}), s)]
+            raise Unsupported(f"keyed_collapse.{name}")
+    eng = Engine(hooks=H())
+    eng.container_models["keyed_collapse"] = Collapsed()
+    P = eng.program
+    st = St()
+    chk.function("lambda_service.LambdaClient.checkpoint", "verified (boto client and response parser opaque; the updates as a generic list)")
+    n = fresh("int", "n_updates")
+    st.assume(n.t >= 0)
+    j = fresh("int", "update_index")
+    upd = st.alloc("opaque:OperationUpdate", {"idx": j})
+
+    def to_dict(eng_, s, args, kwargs):
+        return [("val", Sym("any", WIRE(zint(s.get(args[0])["idx"]))), s)]
+
+    class OH(H):
+        def opaque_call(self, eng_, s, fn, args, kwargs):
+            if fn.name == "OperationUpdate.to_dict":
+                return [("val", Sym("any", WIRE(s.get(fn.info)["idx"].t)), s)]
+            return H.opaque_call(self, eng_, s, fn, args, kwargs)
+
+        def opaque_attr(self, eng_, s, ref, name):
+            if ref.cls == "opaque:OperationUpdate" and name == "operation_id":
+                return [("val", fresh("str", "operation_id"), s)]
+            return H.opaque_attr(self, eng_, s, ref, name)
+    eng.hooks = OH()
+    parsed = {}
+
+    def parse(eng_, s, args, kwargs):
+        r = fresh("any", "parsed_output")
+        s.emit("parse", arg=args[-1], result=r)
+        return [("val", r, s)]
+    eng.summaries["lambda_service.CheckpointOutput.from_dict"] = parse
+    eng.summaries["exceptions.CheckpointError.from_exception"] = lambda e_, s_, a, k: [("val", s_.alloc(P.cls("exceptions.CheckpointError"), {"args": ("wrapped",)}), s_)]
+    eng.summaries["exceptions.BotoClientError.build_logger_extras"] = lambda e_, s_, a, k: [("val", None, s_)]
+    boto = st.alloc("opaque:boto", {})
+    self_ = st.alloc(P.cls("lambda_service.LambdaClient"), {"client": boto})
+    updates = st.alloc("list", {"__kind__": "glist", "len": n.t, "elem": upd})
+    arn, token = fresh("str", "arn"), fresh("str", "token")
+    ctok = eng.sym_of_type("str | None", "client_token", st)
+    for k, v, s in eng.run(P.func("lambda_service.LambdaClient.checkpoint"), [self_, arn, token, updates, ctok], st=st):
+        chk.paths += 1
+        api = [e for e in s.trace if e.kind == "api"]
+        ok = len(api) == 1 and not api[0].args
+        goal = z3.BoolVal(ok)
+        if ok:
+            kw = api[0].kwargs
+            u = kw.get("Updates")
+            us = s.get(u) if isinstance(u, Ref) else {}
+            shape = us.get("__kind__") == "glist" and is_sym(us.get("elem"), "any")
+            goal = z3.And(goal, z3.BoolVal(bool(shape)), us["len"] == n.t if shape else F, us["elem"].t == WIRE(j.t) if shape else F,
+                          ops.values_equal(s, kw.get("DurableExecutionArn"), arn), ops.values_equal(s, kw.get("CheckpointToken"), token),
+                          z3.BoolVal(set(kw) <= {"Updates", "DurableExecutionArn", "CheckpointToken", "ClientToken"}))
+            if "ClientToken" in kw:
+                goal = z3.And(goal, z3.Not(is_none(ctok)), ops.values_equal(s, kw["ClientToken"], strip_opt(ctok)))
+            else:
+                goal = z3.And(goal, is_none(ctok))
+            if k == "val":
+                pr = [e for e in s.trace if e.kind == "parse"]
+                goal = z3.And(goal, z3.BoolVal(len(pr) == 1 and is_sym(v, "any") and z3.eq(v.t, pr[0].result.t)))
+        chk.prove(f"{prefix}.client.checkpoint.forwards_updates", s.pc, goal,
+                  desc="LambdaClient.checkpoint calls the API exactly once with Updates = [u.to_dict() for u in updates] (same length, same order: element i is the wire form of update i), the caller's ARN and token, "
+                       "ClientToken iff one was given; it returns the parsed response",
+                  sample="checkpoint(arn, token, updates[n], client_token): one API call carrying n wire updates in order")
+    return eng
